@@ -62,6 +62,19 @@ Proof.
   destruct (we =? 0); reflexivity.
 Qed.
 
+(* ---- DualPortSynchronousMemory.clock: both reads from the OLD list, then port a's write, then port b's *)
+Lemma DualPortSynchronousMemory_clock_eq wra wrb st raa waa wa wda rab wab wb wdb :
+  DualPortSynchronousMemory_clock wra wrb st raa waa wa wda rab wab wb wdb =
+  let d := DualPortSynchronousMemory_s_data st in
+  let d1 := if wa =? 0 then d else setZ d waa wda in
+  ({| DualPortSynchronousMemory_s_data := if wb =? 0 then d1 else setZ d1 wab wdb |},
+   {| DualPortSynchronousMemory_o_readdata_a := trunc wra (Seq.getZ d raa);
+      DualPortSynchronousMemory_o_readdata_b := trunc wrb (Seq.getZ d rab) |}).
+Proof.
+  unfold DualPortSynchronousMemory_clock. cbv zeta. unfold py_truth.
+  destruct (wa =? 0); destruct (wb =? 0); leaf_done.
+Qed.
+
 (* ---- AutoReset.clock *)
 Lemma AutoReset_clock_eq w st :
   AutoReset_clock w st =
